@@ -66,4 +66,31 @@ theorem cell_run_bucket {ei : Int → Int → Int} {E B : Int} (rs : List Req) (
       | tail _ hp' => exact i2 p hp'
     · rw [s2, i3]
 
+theorem fixedD_weaken {ei : Int → Int → Int} {E B t0 t1 : Int} {rs : List Req} (h01 : t0 ≤ t1)
+    (h : FixedD ei E B t1 rs) : FixedD ei E B t0 rs := by
+  cases rs with
+  | nil => trivial
+  | cons r rs =>
+    obtain ⟨h1, h2, h3⟩ := h
+    exact ⟨⟨h1.dom, h1.burst, h1.valid, by have := h1.mono; omega, h1.now0, h1.now1⟩, h2, h3⟩
+
+/-- a monotone multi-key history whose requests on `k` all carry the limits `(B,c,p)` (valid
+    quantities, time within 1970..2100) satisfies `FixedD` for `k`'s sub-history -/
+theorem fixedD_of_forall (ei : Int → Int → Int) (E B : Int) (k : Key) (rs : List Req) (t0 : Int)
+    (hD : DomD E B) (hm : MonotoneFrom t0 rs)
+    (hreqs : ∀ r ∈ rs, r.key = k → r.burst = B ∧ ei r.count r.period = E ∧ r.valid ∧ 0 ≤ r.now ∧ r.now ≤ T_MAX) :
+    FixedD ei E B t0 (rs.filter (fun r => r.key = k)) := by
+  induction rs generalizing t0 with
+  | nil => trivial
+  | cons r rs ih =>
+    obtain ⟨h0, hm'⟩ := hm
+    have ih' := ih r.now hm' (fun r' hr' => hreqs r' (List.mem_cons_of_mem _ hr'))
+    by_cases hk : r.key = k
+    · obtain ⟨hb, he, hv, hn0, hn1⟩ := hreqs r (List.mem_cons_self ..) hk
+      simp only [List.filter, hk, decide_true]
+      exact ⟨⟨hD, hb, hv, h0, hn0, hn1⟩, he, ih'⟩
+    · simp only [List.filter, hk, decide_false]
+      exact fixedD_weaken h0 ih'
+
+
 end TcVerif
